@@ -25,7 +25,7 @@ import (
 
 func c16Gen(t *rapid.T, r *h.Rec) specCase {
 	av, onEx, onCl := avoidOpts(r)
-	return specCase{Spec: synth.GenSQL(t, &synth.SQLOpts{Avoid: av, OnExclude: onEx, OnClass: onCl, MaxTables: 4, Directives: true, SelfFK: true})}
+	return specCase{Spec: synth.GenSQL(t, &synth.SQLOpts{Avoid: av, OnExclude: onEx, OnClass: onCl, MaxTables: 4, Directives: true, SelfFK: true, ForeignFileTables: true})}
 }
 
 var (
